@@ -345,6 +345,8 @@ def check(model, rep, tier):
   rep.depends('C05', None,
               'types are joined along the edges of this graph: a missing edge '
               'loses the types assigned on that path')
+  rep.depends('C07', ['LV-CLOSURE'],
+              'closure types are recorded at the call sites that the reaching function definitions (DEFINED_FNS_IN) connect to a local function')
   rep.depends('C08', ['PARAMS', 'ACT-TRAV'],
               'argument types are seeded from the parameters the activity '
               'analysis records, strong updates from its modified sets')
